@@ -151,6 +151,39 @@ pub fn s_len_tier(f: Family, max_len: usize, thorough: bool) -> Space {
     }
 }
 
+/// S_cross: content of a denser class under a forced, less dense mode (digits forced to Alphanumeric or
+/// Byte, alphanumeric text forced to Byte): the caller's mode, not the detected one, must drive capacity,
+/// count width and packing. Every (content class, forced mode, level) x the lengths of S_len for the forced mode.
+pub fn s_cross(thorough: bool) -> Space {
+    let mut cases = vec![];
+    for (cm, fm) in [(0usize, 1usize), (0, 2), (1, 2)] {
+        for e in 0..4usize {
+            let max_len = r::cap(40, e, fm) + 40;
+            let lens: Vec<usize> = if thorough { (0..=max_len).collect() } else { quick_lengths(fm, e, max_len) };
+            for len in lens {
+                for version in [None, Some(40u8)] {
+                    if version.is_some() && !(len % 64 == 0 || len + 2 >= r::cap(40, e, fm)) {
+                        continue;
+                    }
+                    cases.push(Case {
+                        input: Input::Fam(Family::Ctr, cm as u8, len as u32),
+                        opts: Opts { mode: Some(fm as u8), ecl: Some(e as u8), version, mask: None },
+                    });
+                }
+            }
+        }
+    }
+    Space {
+        name: format!("S_cross{}", if thorough { "" } else { "/quick" }),
+        describe: format!(
+            "content of a denser class under a forced less dense mode: (digits->Alphanumeric, digits->Byte, alphanumeric->Byte) x 4 levels x {} up to 40 beyond the v40 capacity of the forced mode, version automatic (and forced 40 on every 64th length and around capacity)",
+            if thorough { "every length" } else { "lengths 0..=128, all capacity thresholds of the forced mode -1/0/+1, every 16th length" }
+        ),
+        cases,
+        exhaustive: true,
+    }
+}
+
 pub fn cell_lengths(cap: usize, thorough: bool) -> Vec<usize> {
     let mut l = if thorough {
         vec![0, 1, 2, 3, cap / 2, cap.saturating_sub(2), cap.saturating_sub(1), cap]
